@@ -362,7 +362,9 @@ func main() {
 				prog = append(prog, "o")
 			case x < 87:
 				prog = append(prog, "x")
-			case x < 93 && (*prop == "C13" || *prop == "C01"):
+			case x < 93 && (*prop != "C03" || it%2 == 0):
+				// every property's histories contain Resize (C03's FIFO clause stops at the first one,
+				// so half of its histories stay without)
 				prog = append(prog, fmt.Sprintf("r%d", o.minimum+rng.Intn(2*capacity+3)))
 			default:
 				prog = append(prog, fmt.Sprintf("s%d", k))
@@ -370,6 +372,41 @@ func main() {
 		}
 		prog = append(prog, "w")
 		runHist(w, mon, hist{o, capacity, U, prog}, "random")
+	}
+	// many partitions (more than 16 entries in the partition stack): long histories at 17..60 partitions
+	M := 30
+	if thorough {
+		M = 300
+	}
+	for it := 0; it < M; it++ {
+		capacity := []int{20, 30, 40, 50, 60}[rng.Intn(5)]
+		o := []opt{{true, 1.05, 1}, {true, 1.2, 1}, {true, 1.1, 1}}[rng.Intn(3)]
+		U := capacity + 5 + rng.Intn(10)
+		n := 60 + rng.Intn(120)
+		var prog []string
+		next := 1
+		for i := 0; i < n; i++ {
+			k := 1 + rng.Intn(U)
+			switch x := rng.Intn(100); {
+			case x < 50: // mostly fresh keys in order, so that the partitions fill and rotate
+				prog = append(prog, fmt.Sprintf("s%d", 1+next%U))
+				next++
+			case x < 62:
+				prog = append(prog, fmt.Sprintf("s%d", k))
+			case x < 70:
+				prog = append(prog, fmt.Sprintf("d%d", k))
+			case x < 80:
+				prog = append(prog, fmt.Sprintf("g%d", k), fmt.Sprintf("c%d", k))
+			case x < 94:
+				prog = append(prog, "w")
+			case x < 96 && *prop != "C03":
+				prog = append(prog, fmt.Sprintf("r%d", 17+rng.Intn(50)))
+			default:
+				prog = append(prog, "o")
+			}
+		}
+		prog = append(prog, "w")
+		runHist(w, mon, hist{o, capacity, U, prog}, "many-partitions")
 	}
 	// C02: Capacity() rounding for every requested capacity in a range, every option
 	if *prop == "C02" {
@@ -387,7 +424,7 @@ func main() {
 		}
 	}
 	// C13: (old, new) capacity pairs: growing, shrinking, same partition count / different size
-	if *prop == "C13" {
+	if *prop == "C13" || *prop == "C02" {
 		maxCap := 12
 		if thorough {
 			maxCap = 30
@@ -403,12 +440,20 @@ func main() {
 				for k := 1; k <= fill; k++ {
 					prog = append(prog, fmt.Sprintf("s%d", k))
 				}
-				prog = append(prog, "w", fmt.Sprintf("r%d", newc))
-				for k := fill + 1; k <= fill+newc+1; k++ {
-					prog = append(prog, fmt.Sprintf("s%d", k))
-				}
 				prog = append(prog, "w")
-				runHist(w, mon, hist{o, oldc, fill + newc + 2, prog}, "resize-pairs")
+				post := []string{fmt.Sprintf("r%d", newc)}
+				for k := fill + 1; k <= fill+newc+1; k++ {
+					post = append(post, fmt.Sprintf("s%d", k))
+				}
+				post = append(post, "w")
+				runHist(w, mon, hist{o, oldc, fill + newc + 2, append(append([]string{}, prog...), post...)}, "resize-pairs")
+				// the same pair with holes: every third key deleted first, so that the survivors fit although
+				// the partitions they sit in do not map one-to-one onto the new ones
+				holes := append([]string{}, prog...)
+				for k := 1 + rng.Intn(3); k <= fill; k += 3 {
+					holes = append(holes, fmt.Sprintf("d%d", k))
+				}
+				runHist(w, mon, hist{o, oldc, fill + newc + 2, append(holes, post...)}, "resize-pairs-holes")
 			}
 		}
 	}
